@@ -32,7 +32,7 @@ NOTE = ("Trusted: Coq 8.16.1 kernel + VM; the hand-written Gallina reading of th
         "property theorem: Closed under the global context (copied into the evidence on every run). ")
 CLAIMED.update({
     "C12": ("Coq theorems for all scaffolds with rows >= 1 bp and all queries 1<=a<=b, no size bound: find_overlaps never "
-            "fails, satisfies the relational brute-force spec (None iff no fragment row meets the query; else the run from the "
+            "fails nor runs out of fuel, satisfies the relational brute-force spec (None iff no fragment row meets the query; else the run from the "
             "first to the last fragment row meeting it with their scaffold coordinates), the spec determines the result, the "
             "run is convex, and find_overlaps = the executable linear scan (filter + strip terminal gaps). The pinned "
             "commit's variant is refuted (IndexError) and was repaired by a fix: commit. " + CORR,
@@ -87,32 +87,42 @@ CLAIMED.update({
             "the number of output fragments covering it equals the number of input contigs covering it, and every output "
             "fragment is a sub-interval of an input contig of that name (proved by an invariant carried through lookups, every "
             "resolver round, the cuts with their QC (qc_partition), the re-adding of unfound contigs and a permutation argument "
-            "for fusing/naming/sorting). " + PIPE + "Oracle: per-base coverage sweep.",
+            "for fusing/naming/sorting). C01_never_out_of_fuel: the model's fuelled loops (binary search, gap stripping, the "
+            "'while multi' resolver loop) never run out of fuel, so the resolver terminates on every input and an Err of the "
+            "model always stands for a Python exception. " + PIPE + "Oracle: per-base coverage sweep.",
             NOTE + "Python object identity is modelled by row ids; dict/set order by insertion-ordered lists.",
             "Coq proof (pipeline invariant, ~4000 lines) + in-Coq correspondence of the whole pipeline + coverage oracle",
             "DESIGN.md 6/C01, 13"),
-    "C02": ("PARTIAL proof: the full statement (affine core map within 3 error lengths, orientation, Pretext order, exact deep "
-            "cuts, completion on every PretextView-model script) is decided on each run by an oracle over generated edit scripts "
+    "C02": ("PARTIAL proof. Proved end to end through remap_to_input (C02_two_piece_cut): for every texel size, every scaffold "
+            "pr ++ [f] ++ po of distinct well-formed contigs, f on either strand, every cut coordinate k leaving both pieces of "
+            "f at least 3 error lengths long, every orientation of the two Pretext scaffolds and every rounding of the scaffold "
+            "end by < 1 texel: exactly one cut, nothing left over, results = oriented pr ++ [left piece] and [right piece] ++ po "
+            "with f split exactly at k (the margin is shown sharp by computed examples). The full statement (affine core map "
+            "within 3 error lengths, orientation, Pretext order, several cuts and regrouping, completion on every "
+            "PretextView-model script) is decided on each run by an oracle over generated edit scripts "
             "(cut sets on the texel grid, pieces >= 2 texels, any permutation/orientation/grouping, floor/ceil texel counts, "
             "sub-texel scaffolds, texel from 1 bp, forward and reverse contigs) and by the correspondence of the pipeline "
             "model; Coq theorems cover the ingredients (C12 lookup = brute force, C18 trim/discard invariant incl. strand-aware "
             "trim_fragment, C01 conservation, the refutation of the pinned commit's keep-flag order for reverse-strand contigs, "
-            "repaired by a fix: commit). The global composition over all results is not proved. " + PIPE,
+            "repaired by a fix: commit). The global composition over arbitrary edit scripts is not proved. " + PIPE,
             NOTE + "The PretextView model (texel grid, floor coordinates) is the generator's reading of PretextView.",
-            "in-Coq correspondence of the pipeline + affine-core oracle; Coq lemmas for the ingredients (partial)",
+            "Coq proof of the one-cut script end to end + lemmas for the ingredients (partial) + in-Coq correspondence of the pipeline + affine-core oracle",
             "DESIGN.md 6/C02, 13"),
     "C03": ("Coq theorems, unbounded: for every file/index through which the named records can be read (good_access, proved for "
             "every well-formed rendered FASTA in C04), every buffer >= 1 and line length >= 1, write_scaffold = '>'name LF + "
             "wrap_L(concatenated row bytes: interval, reverse complement for strand -1, gap-length gap characters); the wrapped "
             "body has lines of exactly L, a last line of 1..L, none empty; write_assembly concatenates in scaffold order; residues "
-            "written = sum of row lengths = last AGP object end (C06). " + CORR + "Naive re-implementation from the record strings as oracle.",
+            "written = sum of row lengths = last AGP object end (C06). C03_index_then_stream composes this with C04: for every "
+            "well-formed rendered FASTA and the index the real indexer builds from it, no access premise is left. " + CORR + "Naive re-implementation from the record strings as oracle.",
             NOTE + "End-to-end through the CLI is exercised under C16/C17.",
             "Coq proof (wrap state machine, chunk algebra) + in-Coq correspondence of FastaStream output + naive oracle",
             "DESIGN.md 6/C03"),
     "C04": ("Coq theorems, unbounded: for every well-formed FASTA layout (any width >= 1, LF/CRLF, final newline present or "
             "absent, descriptions, any residues) and every buffer size, index_fasta = (faidx quintuples, run-length tiling) "
             "(C04_index_spec); random access through that index returns residues s..e for all 1<=s<=e<=n (C04_random_access); "
-            "duplicate names and empty files are rejected; streaming back follows from C03. The pinned commit's scanner is "
+            "duplicate names and empty files are rejected; C04_stream_back: index the file, stream the derived assembly back "
+            "through that index = every record in order, wrapped at L, residues outside ACGTacgt replaced by the gap character, "
+            "for every index buffer, stream buffer and line length. The pinned commit's scanner is "
             "refuted (last residue dropped without final newline; fixed). " + CORR,
             NOTE, "Coq proof (line-scanner fold vs render, seek arithmetic) + in-Coq correspondence (exhaustive tiny layouts + random + malformed stream)",
             "DESIGN.md 6/C04"),
@@ -134,23 +144,34 @@ CLAIMED.update({
             "gap in any overlap result after any edit sequence), C12 (lookups strip terminal gaps), C01 (what is re-added). The "
             "pinned commit's gapless left-over join is reproduced, fixed, and kept in the corpus. " + PIPE,
             NOTE, "in-Coq correspondence of the pipeline + adjacency oracle; Coq lemmas for the ingredients (partial)", "DESIGN.md 6/C07, 13"),
-    "C08": ("PARTIAL proof: decided on each run by the correspondence of the pipeline model and an oracle on null maps (every "
-            "scaffold whole, forward, untagged or all painted; all texel sizes; floor/ceil texel counts within one texel; "
-            "sub-texel scaffolds absent): same names, rows, order; only the primary assembly; zero cuts/breaks/joins; painted: "
-            "prefix + rank by size. Coq ingredients: C12, C18, C01, C11 (reversal/identity of junction sets), C20 (order). " + PIPE,
-            NOTE, "in-Coq correspondence of the pipeline + identity oracle (partial proof)", "DESIGN.md 6/C08, 13"),
+    "C08": ("Coq theorem C08_null_map_identity, END TO END through `remap`, no size bound: for every input of well-formed "
+            "scaffolds with distinct names and contigs, every texel size and every null map (each scaffold whole, forward, "
+            "unpainted, untagged, its bait reaching the last row and ending within one texel of the scaffold end; any subset of "
+            "scaffolds absent from the map) remapping succeeds, the only output assembly is the primary one (curated), cuts = "
+            "breaks = joins = 0, all per-assembly counts (0,0), and its scaffolds are exactly the input's (names, fragments, "
+            "gaps, row order, orientation), rank 3, untagged. Found while proving: scaffolds absent from the map lost all but "
+            "the last of a run of consecutive gap rows (the theorem needed their exclusion) -- reproduced on /repo, repaired by "
+            "a fix: commit, legacy behaviour refuted in Coq (C08_legacy_refuted). The painted variant (names = prefix + rank by "
+            "size, content unchanged) is decided by the correspondence and the oracle. " + PIPE,
+            NOTE, "Coq proof end to end (1300 lines over the pipeline stages) + in-Coq correspondence of the pipeline + identity oracle", "DESIGN.md 6/C08, 13"),
     "C09": ("Coq theorems: label_tag_spec (FalseDuplicate > Haplotig > Contaminant incl. Target mode > none; haplotype; rank 3), "
             "Target mode monotone, labelling fails only for Unloc in an unpainted scaffold, and routing: with the repaired "
             "fusion key every piece with rows ends as a contiguous block in the fused scaffold of its own (tag, haplotype, name), "
             "which goes to the assembly keyed by that tag, else haplotype, else primary -- never a curated assembly when tagged; "
             "the pinned commit's key is refuted (fixed). " + PIPE + "Oracle follows the core contigs of every piece into the output dict.",
-            NOTE + "File-name stems (name_assemblies) are exercised through the CLI in C16/C17 only.",
+            NOTE + "From key to file: name_assemblies (closed form of its three branches, no scaffold lost or doubled, exact "
+            "failure and name-clash conditions, all_haplotigs merged last) is proved on the model; the model of the files one "
+            "run opens (pathlib names, parse_output_file, info.yaml, assembly files + .agp companions, chromosome lists, "
+            "chromosome report incl. its text) is compared with the real pretext_to_asm.cli on every generated case (recording "
+            "get_output_filehandle) and on real files for FASTA/AGP/TPF outputs.",
             "Coq proof (case analysis, fold invariant over the fusion) + in-Coq correspondence + routing oracle", "DESIGN.md 6/C09"),
     "C10": ("Coq theorems: rename_by_size = same names, objects in non-increasing length, stable; H_n / _unloc_n handed out "
             "without holes; chromosome groups numbered 1..n by non-increasing length (stable); single-haplotype grouping total "
             "and renaming names only; effect of naming on <Pretext name><suffix>; A,B,.. suffixes; output order total (C20) with "
-            "unloc-between. Name uniqueness over a whole run, multi-haplotype grouping and the CSV are decided by the "
-            "correspondence of the pipeline model and the oracle. One known finding (orphan unloc listed as localised). " + PIPE,
+            "unloc-between; chromosome list: one line per rank-1/2 scaffold, line shape, and for chromosomes listed as main "
+            "scaffold + unlocs localised = no exactly for the unlocs with the chromosome's name (csv_groups). Name uniqueness "
+            "over a whole run and multi-haplotype grouping are decided by the "
+            "correspondence of the pipeline model and the oracle; the CSV text and the chromosome report are also compared. One known finding (orphan unloc listed as localised). " + PIPE,
             NOTE, "Coq proof (sorting lemmas, fold invariants) + in-Coq correspondence + naming/CSV oracle (partial for uniqueness / multi-haplotype)",
             "DESIGN.md 6/C10, 13"),
     "C11": ("Coq theorems: the canonical junction identifies the unordered pair of facing contig ends (with sides, 1-bp contigs "
